@@ -31,6 +31,8 @@ type node struct {
 	framework gen.Version
 
 	creation int64
+	// set by stop() before it asks the registered processes to terminate
+	stopping int32
 
 	env sync.Map // env name gen.Env -> any
 
@@ -794,6 +796,10 @@ func (n *node) stop(force bool) {
 		// already stopped
 		return
 	}
+
+	// from now on a process that gets registered is asked to terminate by
+	// spawn itself: the walk below may not see it
+	atomic.StoreInt32(&n.stopping, 1)
 
 	if force == false {
 		n.applications.Range(func(_, v any) bool {
@@ -1769,6 +1775,12 @@ func (n *node) spawn(factory gen.ProcessFactory, options gen.ProcessOptionsExtra
 	// do not count system app processes
 	if p.application != system.Name {
 		n.waitprocesses.Add(1)
+	}
+
+	if atomic.LoadInt32(&n.stopping) == 1 {
+		// the node is being stopped and has sent (or is sending) the exit signal to
+		// the processes it found registered. this one could have been missed
+		n.RouteSendExit(p.parent, p.pid, gen.TerminateReasonShutdown)
 	}
 
 	// process could send a message to itself during initialization
